@@ -1,4 +1,5 @@
 import Cvise.Proofs.PassesTerm
+import Cvise.Proofs.PassesBalTerm
 import Cvise.Props.C06
 import Cvise.Gen.Const
 /-!
@@ -20,6 +21,20 @@ theorem drive_bound {σ : Type} (Q : TextPass σ) (μ : Text → σ → Nat)
     for `n` instances, for every test -/
 theorem binary_search_bound {α : Type} (test : List α → Bool) (l : List α) :
     ∃ r, start test (startFuel l.length) l = some r := C06.completes test l
+
+/-- balanced (all shipped arguments): at most `2·|s| + 2` candidates for **every** accept/reject history.  The measure is
+    `2·|s| + 1 − start of the current match`: `advance` moves the start right, an accepted candidate is strictly shorter
+    (every generated recipe shrinks a span of ≥ 2 characters or leaves the text unchanged — `balanced_recipes_shrink`,
+    regenerated) and the search resumes at or after the old start -/
+theorem balanced_bound (arg : String) (cfg : BalCfg) (hc : balCfg arg = some cfg) (hist : List Bool) (s : Text) (st : M.Span)
+    (hnew : (balanced cfg).new s = some st) :
+    (runHistory (balanced cfg) hist s (some st) []).1.length ≤ 2 * s.length + 2 :=
+  balanced_bound_shipped arg cfg hc hist s st hnew
+
+/-- the table hypothesis, decided over the regenerated recipes -/
+theorem balanced_recipes_shrink : Gen.balancedCfg.all (fun x => shapeShrinks x.2.2.2.2) = true := P.balanced_recipes_shrink
+
+example : (balCfg "parens").isSome = true := by decide +kernel
 
 /-- peep: `advance` walks `(pos, regex)` lexicographically and ends at `pos ≥ |s|` -/
 theorem peep_advance_progress (arg : String) (s : Text) (st st' : PeepSt) (h : peepAdvance arg s st = some st') :
